@@ -90,11 +90,26 @@ class C03(GenCheck):
         names = [n for n, _, f in decls if f != "x"]
         env = exprs.Env({n: (s, f, values[n]) for n, s, f in decls}, reginit)
 
+        fm = {n: f for n, s, f in decls}
+
         def mk():
             at = rand_atom(rng, names, regs, values, decls)
             if at[0] in CMP and at[2] == ["c", 0]:
                 v = exprs.meaning(at[1], env, 64)[0][0]
                 at[2] = ["c", v + rng.choice([-1, 0, 0, 1, rng.randint(-5, 5)])]
+            if at[0] in CMP and at[2][0] == "c" and at[1][0] == "v" and rng.random() < 0.25:
+                # a constant at the limits of what an instruction's immediate can hold, the variable next to it
+                f = fm[at[1][1]]
+                nb, sg = dsl.fmt_size(f), dsl.fmt_signed(f)
+                lo, hi = (-(1 << 8 * nb - 1), (1 << 8 * nb - 1) - 1) if sg else (0, (1 << 8 * nb) - 1)
+                B = rng.choice([2 ** 31, 2 ** 31, 2 ** 31 - 1, 2 ** 31 + 1, -2 ** 31, -2 ** 31 - 1, -2 ** 31 + 1, 2 ** 32, 2 ** 32 - 1, 2 ** 15, 2 ** 16])
+                at[2] = ["c", B]
+                near = B + rng.choice([-1, 0, 0, 1])
+                values[at[1][1]] = near if lo <= near <= hi else rng.choice([lo, hi])
+            if at[0] == "xcmp" and at[3][0] == "c" and rng.random() < 0.2:
+                # the same for a fixed-point variable: the scaled constant is 2**31 exactly
+                at[3] = ["c", rng.choice([21474.83648, 21474.83647, 21474.83649, -21474.83648, 42949.67296])]
+                values[at[2]] = round(at[3][1] * FB) + rng.choice([-1, 0, 0, 1])
             return at
         # markers
         nblocks = rng.randint(1, 3)
@@ -146,7 +161,7 @@ class C03(GenCheck):
         if c[0] == "not":
             return f"(CNot {self.ccond(case, c[1])})"
         if c[0] == "xcmp":
-            rhs = ["c", c[3][1] * FB] if c[3][0] == "c" else c[3]          # comparison() scales the integer side
+            rhs = ["c", round(c[3][1] * FB)] if c[3][0] == "c" else c[3]          # comparison() scales the integer side
             return f"(CAtom (cmp_impl {self.CMPN[c[1]]} {self.c01.cexpr(case, ['v', c[2]])} {self.c01.cexpr(case, rhs)}))"
         if c[0] in ("bit", "truth"):
             x = self.c01.fold(c[1])
@@ -208,7 +223,7 @@ class C03(GenCheck):
             return (not a), oa
         if c[0] == "xcmp":
             a = env.vars[c[2]][2]
-            b = c[3][1] * FB if c[3][0] == "c" else env.vars[c[3][1]][2]
+            b = round(c[3][1] * FB) if c[3][0] == "c" else env.vars[c[3][1]][2]
             return {"==": a == b, "!=": a != b, "<": a < b, "<=": a <= b, ">": a > b, ">=": a >= b}[c[1]], True
         if c[0] in ("bit", "truth"):
             W = 32 if any((exprs.leaf_info(l, env)[0] or 8) <= 4 for l in exprs.leaves(c[1])) else 64
